@@ -81,10 +81,10 @@ fn offer_foreign<K: Kind>(w: &mut ShapeWriter<Dest>) -> Result<(), Error> {
 }
 
 /// As `write_bytes`, with `finalize()` also called after shape i whenever bit i (mod 32) of `mid_fins`
-/// is set, and a shape of another type offered (it must be rejected) before shape i (i >= 1) whenever
-/// bit i (mod 32) of `rejects` is set. Both are ignored for the consuming `write_shapes` route.
+/// is set, a shape of another type offered (it must be rejected) before shape i (i >= 1) whenever
+/// bit i (mod 32) of `rejects` is set, and `finalize()` called on the fresh writer when bit 0 of `rejects` is set.
 pub fn write_bytes_hist<K: Kind>(shapes: &[K], with_shx: bool, fin: Finish, mid_fins: u32, rejects: u32) -> Result<(Vec<u8>, Option<Vec<u8>>), String> {
-    if (mid_fins == 0 && rejects == 0) || fin == Finish::WriteShapes {
+    if mid_fins == 0 && rejects == 0 {
         return write_bytes(shapes, with_shx, fin);
     }
     let shp = Dest::new();
@@ -94,7 +94,15 @@ pub fn write_bytes_hist<K: Kind>(shapes: &[K], with_shx: bool, fin: Finish, mid_
             Some(x) => ShapeWriter::with_shx(shp.clone(), x.clone()),
             None => ShapeWriter::new(shp.clone()),
         };
-        let k = if fin == Finish::Mixed { mixed_split(shapes.len()) } else { shapes.len() };
+        // bit 0 of `rejects`: finalize() is called on the fresh writer, before anything was written
+        if rejects & 1 != 0 {
+            w.finalize().map_err(|e| format!("finalize before the first write: {}", err_str(&e)))?;
+        }
+        let k = match fin {
+            Finish::WriteShapes => 0,
+            Finish::Mixed => mixed_split(shapes.len()),
+            _ => shapes.len(),
+        };
         for (i, s) in shapes[..k].iter().enumerate() {
             if i >= 1 && rejects & (1 << (i % 32)) != 0 {
                 if offer_foreign::<K>(&mut w).is_ok() {
@@ -106,11 +114,10 @@ pub fn write_bytes_hist<K: Kind>(shapes: &[K], with_shx: bool, fin: Finish, mid_
                 w.finalize().map_err(|e| format!("finalize after #{}: {}", i, err_str(&e)))?;
             }
         }
-        if fin == Finish::FinalizeDrop {
-            w.finalize().map_err(|e| format!("finalize: {}", err_str(&e)))?;
-        }
-        if fin == Finish::Mixed {
-            w.write_shapes(shapes[k..].iter()).map_err(|e| format!("write_shapes (after {} write_shape calls): {}", k, err_str(&e)))?;
+        match fin {
+            Finish::FinalizeDrop => w.finalize().map_err(|e| format!("finalize: {}", err_str(&e)))?,
+            Finish::WriteShapes | Finish::Mixed => w.write_shapes(shapes[k..].iter()).map_err(|e| format!("write_shapes (after {} write_shape calls): {}", k, err_str(&e)))?,
+            Finish::Drop => drop(w),
         }
     }
     Ok((shp.bytes(), shx.map(|x| x.bytes())))
@@ -118,7 +125,15 @@ pub fn write_bytes_hist<K: Kind>(shapes: &[K], with_shx: bool, fin: Finish, mid_
 
 /// Drive an already constructed writer (any destination type) through the history and drop it: `fin` selects the
 /// route, `finalize()` is also called after shape i whenever bit i (mod 32) of `mid_fins` is set.
-pub fn drive_writer<K: Kind, T: std::io::Write + std::io::Seek>(mut w: ShapeWriter<T>, shapes: &[K], fin: Finish, mid_fins: u32) -> Result<(), String> {
+pub fn drive_writer<K: Kind, T: std::io::Write + std::io::Seek>(w: ShapeWriter<T>, shapes: &[K], fin: Finish, mid_fins: u32) -> Result<(), String> {
+    drive_writer_ff(w, shapes, fin, mid_fins, false)
+}
+
+/// As `drive_writer`; with `fin_first`, finalize() is called on the fresh writer before anything else.
+pub fn drive_writer_ff<K: Kind, T: std::io::Write + std::io::Seek>(mut w: ShapeWriter<T>, shapes: &[K], fin: Finish, mid_fins: u32, fin_first: bool) -> Result<(), String> {
+    if fin_first {
+        w.finalize().map_err(|e| format!("finalize before the first write: {}", err_str(&e)))?;
+    }
     let k = match fin {
         Finish::WriteShapes => 0,
         Finish::Mixed => mixed_split(shapes.len()),
